@@ -437,6 +437,22 @@ func main() {
 						_, err := w.Write(p)
 						return func() []byte { w.Flush(); return unmaskAll(d) }, err
 					}},
+					// the writer's buffer is the front of an arena of the application's; the payload is
+					// another slice of the same arena, behind it; flushing is disabled, so a payload
+					// larger than the buffer makes the writer grow
+					wcase{fmt.Sprintf("NewWriterBuffer-over-arena-front.Write+Flush/client=%v", client), func(p []byte, d *env.Dst) (func() []byte, error) {
+						arena := make([]byte, 256+len(p)+64)
+						region := arena[256 : 256+len(p)]
+						copy(region, p)
+						w := wsutil.NewWriterBuffer(d, st, ws.OpBinary, arena[:128])
+						w.DisableFlush()
+						_, err := w.Write(region)
+						return func() []byte {
+							w.Flush()
+							copy(p, region) // what became of the caller's bytes
+							return unmaskAll(d)
+						}, err
+					}},
 					wcase{fmt.Sprintf("GetWriter.Write+Flush/client=%v", client), func(p []byte, d *env.Dst) (func() []byte, error) {
 						w := wsutil.GetWriter(d, st, ws.OpBinary, 256)
 						_, err := w.Write(p)
@@ -469,6 +485,9 @@ func main() {
 						}
 						wsutil.WriteClientMessage(env.NewDst(), ws.OpText, bytes.Repeat([]byte{'x'}, n))
 						got := wire()
+						if strings.HasPrefix(c.name, "NewWriterBuffer-over-arena-front") && !bytes.Equal(p, orig) {
+							return explore.Failf("caller-slice-modified:"+c.name, "the payload, a slice of the caller's arena behind the writer's buffer, changed: first difference at %d", firstDiff(p, orig))
+						}
 						if !bytes.Equal(got, orig) {
 							return explore.Failf("wire-payload-affected-by-slice-reuse:"+c.name, "first difference at %d (len %d vs %d)", firstDiff(got, orig), len(got), len(orig))
 						}
